@@ -447,11 +447,18 @@ def splice_fn(text, spl, name, log):
                     # is `C::iter` (std); vstd models `iter()` but not the reference's IntoIterator impl
                     first = ct[pos_in + 1]
                     if first.kind == "punct" and first.text == "&":
-                        inserts.append((first.start, "("))
-                        inserts.append((ct[lo - 1].end, ").iter()", 0))
+                        # `&mut C`: <&mut C as IntoIterator>::into_iter is C::iter_mut
+                        nxt = ct[pos_in + 2]
+                        if nxt.kind == "ident" and nxt.text == "mut":
+                            # `for P in &mut PLACE` -> `for P in PLACE.iter_mut()` (method-call auto-ref takes the same `&mut PLACE`)
+                            inserts.append((first.start, "", 1, ct[pos_in + 3].start - first.start))
+                            inserts.append((ct[lo - 1].end, ".iter_mut()", 0))
+                        else:
+                            inserts.append((first.start, "("))
+                            inserts.append((ct[lo - 1].end, ").iter()", 0))
                     else:
                         inserts.append((ct[lo - 1].end, ".iter()", 0))
-                    log.append({"rule": "R16", "in": name, "before": "for P in E   (E: &Collection)", "after": "for P in E.iter()"})
+                    log.append({"rule": "R16", "in": name, "before": "for P in E   (E: &Collection / &mut Collection)", "after": "for P in E.iter() / PLACE.iter_mut()"})
         ntail = spl.get("tail", "")
         if ntail.strip():
             raise LostAnchor("tail splice unsupported")
@@ -470,6 +477,8 @@ def apply_inserts(text, inserts):
         out.append(text[pos:off])
         out.append(s)
         pos = off
+        if len(ins) > 3:
+            pos = off + ins[3]      # replace: skip ins[3] characters of the source text
     out.append(text[pos:])
     return "".join(out)
 
